@@ -120,6 +120,12 @@ class Suite:
             self.undecided.append((where, "out of subset: %s" % (e,)))
         except RecursionError as e:
             self.undecided.append((where, "recursion limit"))
+        except (AttributeError, TypeError, KeyError, IndexError, ValueError) as e:
+            # a contract model met a value of a shape it was not written for (the code under contract changed its calling pattern):
+            # the contract no longer applies -- UNDECIDED, never a pass, never a violation
+            tb = traceback.extract_tb(e.__traceback__)
+            loc = "%s:%d" % (os.path.basename(tb[-1].filename), tb[-1].lineno) if tb else '?'
+            self.undecided.append((where, "contract does not apply to this code (%s: %s at %s)" % (type(e).__name__, e, loc)))
         return None
 
     # -------------------------------------------------------------- discharge
